@@ -37,14 +37,29 @@ const (
 	FaultReadError
 	FaultGarbage // the stream from the cut on is replaced by garbage bytes, then EOF
 	FaultFlip    // the single byte at the offset is XORed with garbage[0]; the stream itself is not cut
+	// FaultReadTimeout: from the offset on every Read fails with an error whose Timeout() is true - an expired read
+	// deadline, which stays expired
+	FaultReadTimeout
 )
 
 func (f FaultKind) String() string {
-	return [...]string{"none", "eof", "read-error", "garbage", "byte-flip"}[f]
+	return [...]string{"none", "eof", "read-error", "garbage", "byte-flip", "read-timeout"}[f]
 }
 
 var ErrInjectedRead = errors.New("injected read error")
 var ErrInjectedWrite = errors.New("injected write error")
+
+// ErrInjectedTimeout is what a connection with an expired read deadline returns, again and again.
+var ErrInjectedTimeout error = injectedTimeout{}
+
+type injectedTimeout struct{}
+
+func (injectedTimeout) Error() string   { return "injected i/o timeout (read deadline exceeded)" }
+func (injectedTimeout) Timeout() bool   { return true }
+func (injectedTimeout) Temporary() bool { return true }
+func (injectedTimeout) Is(target error) bool {
+	return target == os.ErrDeadlineExceeded
+}
 
 // TapEvent is one Write as seen on the wire.
 type TapEvent struct {
@@ -216,6 +231,8 @@ func (p *Pipe) Read(b []byte) (int, error) {
 				return 0, io.EOF
 			case FaultReadError:
 				return 0, ErrInjectedRead
+			case FaultReadTimeout:
+				return 0, ErrInjectedTimeout
 			case FaultGarbage:
 				if p.garbagePo >= len(p.garbage) {
 					return 0, io.EOF
